@@ -212,6 +212,26 @@ func solveOne(o *Obligation, timeoutS int) {
 			v = va
 		}
 	}
+	if v.Answer == "" && !o.noHeapAx {
+		// first without the quantified heap axioms, then also with the optional ground
+		// instances (fewer assumptions: a proof stays a proof)
+		o.noHeapAx, o.noOptAx = true, true
+		qa := o.Query(true)
+		o.noOptAx = false
+		qb := o.Query(true)
+		o.noHeapAx = false
+		for i, qq := range []string{qa, qb} {
+			if qq == q || (i == 1 && qq == qa) {
+				continue
+			}
+			va := decide(qq, min(timeoutS, 6), false)
+			if va.Answer == "unsat" {
+				va.Solver += "(quantified heap axioms dropped)"
+				v = va
+				break
+			}
+		}
+	}
 	if v.Answer == "" {
 		v = decide(q, timeoutS, false)
 	}
